@@ -10,9 +10,15 @@
 # capacity check tested, on the same bucket, with no increment in between"
 # becomes term equality + edge dominance.  Rules R1..R5 are phrased over these
 # terms, CFG guards (edge dominators), must-pass-through and folded constants.
+# (The fixpoint is computed by plain sweeps; should they not settle -- a merge symbol of an earlier loop carried unchanged
+# through two nested loops can flip between the two loop heads' symbols -- the same equations are solved monotonically:
+# sticky merge symbols, removal of trivial ones, re-check by the plain sweep.)
 # A local that holds a helper's `cond ? NULL : &slot` result is refined on the two
 # edges of a NULL test (branch refinement); the test's guard atoms include the
 # helper's own condition, so a capacity check inside a helper guards the caller's stores.
+# R5 evaluates the sort helper with a concrete interpreter of the clang AST (class CEval) per fill level over priority
+# witnesses (all two-priority assignments, all weak orderings of up to 4 items, permutations with int16 extremes) and
+# judges the order sequence it leaves; the selection-sort shape rule is its structural (for-all) record / fall-back.
 # R6 follows the priority from the scheduling parameter through the item field
 # to the operands of the sort comparison on the resolved clang types and
 # evaluates the composed integer conversions over the finite int16 domain.
@@ -59,9 +65,16 @@ EXPLANATION = (
     "0..ARRAY_SIZE(item), through clamping/min helpers (helper results are ?: terms over their branch conditions) "
     "-- and empties that bucket on every non-error return: by a store of 0 after the last callback, or by leaving over a "
     "branch edge whose condition holds for fill level 0 only (evaluated for all fill levels, on the count as it is at the branch) "
-    "(R4); the sort helper initialises the full identity sequence and exchanges when the earlier "
-    "element's prio is greater, comparing prio only (R5); the priority parameter stored by tdma_schedule, the "
-    "item field prio, every temporary and every integral conversion up to the two operands of the sort's "
+    "(R4); the sort helper is evaluated (a concrete interpreter of its clang AST: exact integer conversions, pointers, "
+    "arrays, structs, loops, helper calls) for every fill level 0..ARRAY_SIZE(item) on priority witnesses -- all 2^n "
+    "assignments of two priorities, every weak ordering of up to four items, permutations and tie patterns with the int16 "
+    "extremes for fuller buckets -- and the order sequence it leaves must select every item of the bucket exactly once, "
+    "unchanged, in ascending priority, the positions behind the fill level holding their own index; a difference is a "
+    "concrete bucket; that the helper initialises the full identity sequence and exchanges when the earlier element's "
+    "prio is greater, comparing prio only, on the current sequence (selection-sort shape, for all bucket contents) is the "
+    "structural record, and the deciding rule when the helper cannot be evaluated (R5); the priority parameter stored by "
+    "tdma_schedule, the "
+    "item field prio, every temporary (scalar, or element of a local key array) and every integral conversion up to the two operands of the sort's "
     "comparison (resolved, desugared clang types) compose to a chain that preserves the order of all int16 "
     "priorities -- evaluated over the 65536-value domain, violations come with a concrete pair (R6); "
     "tdma_sched_reset, whose control flow depends on the ring position only, is evaluated concretely for each "
@@ -554,18 +567,19 @@ class Fn:
                     st[k] = new
         return st
 
-    def merge(self, n, ins):
+    def merge(self, n, ins, sticky=False):
         if len(ins) == 1:
             return dict(ins[0])
         keys = set()
         for s in ins:
             keys |= set(s)
         st = {}
+        prev = self.inn.get(n.id) or {}
         for k in keys:
             phi = ("phi", self.name, self.keyname(k), n.id)
             vals = {self.get(s, k) for s in ins}
             vals.discard(phi)             # a value carried around a loop unchanged is no new value
-            if len(vals) == 1:
+            if len(vals) == 1 and not (sticky and prev.get(k) == phi):
                 st[k] = next(iter(vals))
             else:
                 st[k] = phi
@@ -579,25 +593,79 @@ class Fn:
             init[("L", p["id"])] = ("p", i, p.get("name") or "arg%d" % i)
         order = [g.entry] + [n for n in g.nodes if n is not g.entry]
         for _ in range(80):
-            changed = False
-            for n in order:
-                if n is g.entry:
-                    st = dict(init)
-                else:
-                    ins = [self.edge_state(p, l) for (p, l) in n.pred if p.id in self.out]
-                    if not ins:
-                        continue
-                    st = self.merge(n, ins)
-                if n.id in self.out and self.inn.get(n.id) == st:
-                    continue
-                self.inn[n.id] = st
-                o = self.transfer(n, dict(st), False)
-                if self.out.get(n.id) != o:
-                    self.out[n.id] = o
-                    changed = True
-            if not changed:
+            if not self.sweep(init, order):
+                return
+        # The sweep above takes "the value at a merge is the one incoming value (the merge's own symbol aside), else
+        # the merge's symbol" literally in every round; a value that is a merge symbol of an EARLIER loop and passes
+        # unchanged through two nested loops can then flip between the symbols of the two loop heads for ever (each
+        # head sees the other's stale symbol).  Same equations, solved monotonically instead: a merge symbol, once
+        # taken, is kept (sticky sweep -- terminates), then every symbol all of whose incoming values are one value v
+        # is replaced by v (trivial-phi removal), and the result is checked to be a solution of the original equations
+        # by one forced sweep + sweeps until nothing changes.
+        self.inn, self.out, self.refine = {}, {}, {}
+        for _ in range(200):
+            if not self.sweep(init, order, sticky=True):
+                break
+        else:
+            raise AnalysisError("%s(): value dataflow did not converge" % self.name)
+        for _ in range(200):
+            sub = self.trivial_phis()
+            if not sub:
+                break
+
+            def leaf(t, sub=sub):
+                return sub.get(t) if t[0] == "phi" else None
+            for states in (self.inn, self.out):
+                for nid, st in states.items():
+                    states[nid] = {k: rebuild(v, leaf) for k, v in st.items()}
+        else:
+            raise AnalysisError("%s(): value dataflow did not converge" % self.name)
+        self.sweep(init, order, force=True)
+        for _ in range(80):
+            if not self.sweep(init, order):
                 return
         raise AnalysisError("%s(): value dataflow did not converge" % self.name)
+
+    def sweep(self, init, order, sticky=False, force=False):
+        g = self.g
+        changed = False
+        for n in order:
+            if n is g.entry:
+                st = dict(init)
+            else:
+                ins = [self.edge_state(p, l) for (p, l) in n.pred if p.id in self.out]
+                if not ins:
+                    continue
+                st = self.merge(n, ins, sticky)
+            if not force and n.id in self.out and self.inn.get(n.id) == st:
+                continue
+            self.inn[n.id] = st
+            o = self.transfer(n, dict(st), False)
+            if self.out.get(n.id) != o:
+                self.out[n.id] = o
+                changed = True
+        return changed
+
+    def trivial_phis(self):
+        """Merge symbols whose incoming values (the symbol itself aside) are one and the same value."""
+        sub = {}
+        for n in self.g.nodes:
+            if n is self.g.entry or n.id not in self.inn:
+                continue
+            ins = [self.edge_state(p, l) for (p, l) in n.pred if p.id in self.out]
+            if len(ins) < 2:
+                continue
+            for k, v in self.inn[n.id].items():
+                phi = ("phi", self.name, self.keyname(k), n.id)
+                if v != phi:
+                    continue
+                vals = {self.get(s, k) for s in ins}
+                vals.discard(phi)
+                if len(vals) == 1:
+                    w = next(iter(vals))
+                    if not contains(w, phi):
+                        sub[phi] = w
+        return sub
 
     def record(self):
         for n in self.g.nodes:
@@ -2467,7 +2535,7 @@ def r4_execute(a):
 
 # ---------------------------------------------------------------- R5 sort shape
 
-def r5_sort(a, sort):
+def r5_shape(a, sort):
     R = "C08.R5"
     if sort is None:
         raise AnalysisError("tdma_sched_execute(): the priority sort helper could not be identified")
@@ -2706,6 +2774,30 @@ class PrioFlow:
                 l = strip(kids(n)[0])
                 if kind(l) == "DeclRefExpr":
                     self.dirty.add(l.get("referencedDecl", {}).get("id"))
+        # local arrays of integers (a copy of the sort keys, fetched once): every element holds what some
+        # `array[...] = value` stored; an array that is used in any other way than `array[...]` read / assigned
+        # (address passed on, compound assignment, ++) has no known content
+        self.adefs, self.adirty = {}, set()
+        for n in walk(fn.f):
+            if kind(n) != "DeclRefExpr" or fn.vclass.get(n.get("referencedDecl", {}).get("id")) != "mem":
+                continue
+            did = n["referencedDecl"]["id"]
+            cur, p = n, self.tu.parent.get(id(n))
+            while p is not None and (kind(p) == "ParenExpr" or (kind(p) == "ImplicitCastExpr" and
+                                                              p.get("castKind") in ("ArrayToPointerDecay", "NoOp"))):
+                cur, p = p, self.tu.parent.get(id(p))
+            if not (kind(p) == "ArraySubscriptExpr" and kids(p) and kids(p)[0] is cur):
+                self.adirty.add(did)
+                continue
+            cur, p = p, self.tu.parent.get(id(p))
+            while p is not None and kind(p) == "ParenExpr":
+                cur, p = p, self.tu.parent.get(id(p))
+            if kind(p) == "ImplicitCastExpr" and p.get("castKind") == "LValueToRValue":
+                continue
+            if kind(p) == "BinaryOperator" and p.get("opcode") == "=" and kids(p)[0] is cur:
+                self.adefs.setdefault(did, []).append(kids(p)[1])
+                continue
+            self.adirty.add(did)
 
     def link(self, what, t, node, where=None):
         return {"what": what, "type": t, "line": node.get("_line"), "file": where or self.a.F, "func": self.fn.name}
@@ -2784,6 +2876,23 @@ class PrioFlow:
                     l = self.link("local %s of %s()" % (rd.get("name"), self.fn.name), t, decl)
                     out += [(src, links + [l]) for (src, links) in sub]
                 return out if len(out) <= 8 else None
+        if k == "ArraySubscriptExpr":
+            b = strip(kids(lv)[0])
+            rd = b.get("referencedDecl", {}) if kind(b) == "DeclRefExpr" else {}
+            did = rd.get("id")
+            t = int_type(self.tu, lv.get("type"))
+            if t is None or rd.get("kind") != "VarDecl" or self.fn.vclass.get(did) != "mem" \
+                    or did in self.adirty or not self.adefs.get(did) or self.tu.by_id.get(did, {}).get("init"):
+                return None
+            decl = self.tu.by_id.get(did) or lv
+            out = []
+            for rhs in self.adefs[did]:
+                sub = self.chains(rhs, depth + 1)
+                if sub is None:
+                    return None
+                l = self.link("element of local array %s of %s()" % (rd.get("name"), self.fn.name), t, decl)
+                out += [(src, links + [l]) for (src, links) in sub]
+            return out if len(out) <= 8 else None
         return None
 
 
@@ -2959,6 +3068,758 @@ def r6_prio_width(a, sort):
             found = "%s: %s is %s and cannot hold priority %d (becomes %d): priorities %d and %d are compared as %d and %d" % (
                 chain_text(A if la_ is not None else B), l["what"], tdesc(l["type"]), v, w2, pa, pb, through(A, pa), through(B, pb))
             a.L.ob(R, l["file"], l["func"], key, want, found, False, l["line"])
+
+
+# ---------------------------------------------------------------- concrete evaluation of C code (R5 fold)
+
+class NoVerdict(Exception):
+    """The concrete evaluator met something outside its vocabulary (or undefined behaviour): no verdict."""
+
+
+class _Undef:
+    def __repr__(self):
+        return "<uninitialised>"
+
+
+UNDEF = _Undef()
+
+
+class Ptr:
+    """&container[key]: container is a Python list (array object) or dict (struct object / stack frame)."""
+    __slots__ = ("obj", "key")
+
+    def __init__(self, obj, key):
+        self.obj, self.key = obj, key
+
+    def same(self, o):
+        return isinstance(o, Ptr) and o.obj is self.obj and o.key == self.key
+
+
+class CEval:
+    """Concrete interpreter of the C subset the scheduler helpers are written in, on the clang AST: integers with the
+    exact conversions of the resolved types (IntegralCast nodes, assignment to a narrower object, usual arithmetic
+    conversions -- clang spells them all out), pointers to array elements / struct members / locals, arrays, structs,
+    if / for / while / do / break / continue / return, ?:, && ||, ++ --, compound assignment, calls of functions that
+    have a body in the translation unit (evaluated recursively) and of the console output functions (no effect).
+    Everything else -- switch, goto, unknown callees, use of an uninitialised value in arithmetic or a branch, signed
+    overflow, out-of-bounds access, step limit -- raises NoVerdict.  Never executes anything: it folds the AST."""
+
+    def __init__(self, tu, max_steps=100000, max_depth=6):
+        self.tu = tu
+        self.max_steps, self.max_depth = max_steps, max_depth
+        self.steps = 0
+        self.depth = 0
+        self.statics = {}
+        self.globals = {}
+        self._types = {}
+
+    # -- types / objects
+    def itype(self, tdict):
+        key = ((tdict or {}).get("qualType"), (tdict or {}).get("desugaredQualType"))
+        if key not in self._types:
+            self._types[key] = int_type(self.tu, tdict)
+        return self._types[key]
+
+    def make(self, qt, zero=False):
+        q = strip_const(qt)
+        if q.endswith("]"):
+            i = q.index("[")
+            n = q[i + 1:q.index("]", i)]
+            if not n.isdigit():
+                raise NoVerdict("array of unknown extent (%s)" % qt)
+            rest = q[:i].rstrip() + q[q.index("]", i) + 1:]
+            return [self.make(rest, zero) for _ in range(int(n))]
+        if q.startswith("struct ") and "*" not in q:
+            name = q[len("struct "):].strip()
+            if name not in self.tu.records:
+                raise NoVerdict("object of unknown type %s" % qt)
+            return {f: self.make(t, zero) for (f, t) in self.tu.record_fields(name)}
+        if q.startswith("union "):
+            raise NoVerdict("union object")
+        return 0 if zero else UNDEF
+
+    def copy(self, v):
+        if isinstance(v, list):
+            return [self.copy(x) for x in v]
+        if isinstance(v, dict):
+            return {k: self.copy(x) for k, x in v.items()}
+        return v
+
+    def tick(self):
+        self.steps += 1
+        if self.steps > self.max_steps:
+            raise NoVerdict("no termination within %d steps" % self.max_steps)
+
+    # -- calls
+    def call(self, name, args):
+        f = self.tu.functions.get(name)
+        if f is None or not any(kind(c) == "CompoundStmt" for c in kids(f)):
+            raise NoVerdict("call of %s(), which has no body in this translation unit" % name)
+        params = self.tu.fparams(f)
+        if len(params) != len(args):
+            raise NoVerdict("%s() called with %d arguments" % (name, len(args)))
+        if self.depth >= self.max_depth:
+            raise NoVerdict("call depth")
+        frame = {"<fn>": name}
+        for p, v in zip(params, args):
+            frame[p["id"]] = v
+        self.depth += 1
+        try:
+            r = self.stmt(self.tu.body(f), frame)
+        finally:
+            self.depth -= 1
+        if isinstance(r, tuple):
+            return r[1]
+        return UNDEF
+
+    # -- statements: -> None | "break" | "continue" | ("ret", value)
+    def stmt(self, s, fr):
+        self.tick()
+        k = kind(s)
+        if k == "CompoundStmt":
+            for x in kids(s):
+                r = self.stmt(x, fr)
+                if r is not None:
+                    return r
+            return None
+        if k == "DeclStmt":
+            for d in kids(s):
+                if kind(d) == "VarDecl":
+                    self.decl(d, fr)
+                elif kind(d) not in ("TypedefDecl", "RecordDecl", "EnumDecl", "StaticAssertDecl"):
+                    raise NoVerdict("declaration of kind %s" % kind(d))
+            return None
+        if k == "IfStmt":
+            inner = list(s.get("inner", []))
+            has_else = s.get("hasElse", False)
+            cond = inner[-3] if has_else else inner[-2]
+            for p in (inner[:-3] if has_else else inner[:-2]):
+                if p:
+                    self.stmt(p, fr)
+            if self.truth(self.rv(cond, fr)):
+                return self.stmt(inner[-2] if has_else else inner[-1], fr)
+            if has_else:
+                return self.stmt(inner[-1], fr)
+            return None
+        if k == "ForStmt":
+            inner = s["inner"]
+            init, cond, inc, body = inner[0], inner[2], inner[3], inner[4]
+            if init:
+                self.stmt(init, fr)
+            while True:
+                self.tick()
+                if cond and not self.truth(self.rv(cond, fr)):
+                    return None
+                r = self.stmt(body, fr)
+                if r == "break":
+                    return None
+                if isinstance(r, tuple):
+                    return r
+                if inc:
+                    self.rv(inc, fr)
+        if k == "WhileStmt":
+            cond, body = s["inner"][-2], s["inner"][-1]
+            while True:
+                self.tick()
+                if not self.truth(self.rv(cond, fr)):
+                    return None
+                r = self.stmt(body, fr)
+                if r == "break":
+                    return None
+                if isinstance(r, tuple):
+                    return r
+        if k == "DoStmt":
+            body, cond = s["inner"][0], s["inner"][1]
+            while True:
+                self.tick()
+                r = self.stmt(body, fr)
+                if r == "break":
+                    return None
+                if isinstance(r, tuple):
+                    return r
+                if not self.truth(self.rv(cond, fr)):
+                    return None
+        if k == "ReturnStmt":
+            ks = kids(s)
+            return ("ret", self.rv(ks[0], fr) if ks else UNDEF)
+        if k == "BreakStmt":
+            return "break"
+        if k == "ContinueStmt":
+            return "continue"
+        if k == "NullStmt":
+            return None
+        if k == "AttributedStmt":
+            return self.stmt(kids(s)[-1], fr)
+        if k in ("SwitchStmt", "CaseStmt", "DefaultStmt", "GotoStmt", "LabelStmt", "GCCAsmStmt", "MSAsmStmt", "IndirectGotoStmt"):
+            raise NoVerdict("statement of kind %s" % k)
+        self.rv(s, fr)
+        return None
+
+    def decl(self, d, fr):
+        qt = d.get("type", {}).get("qualType", "")
+        store = fr
+        if d.get("storageClass") == "static":
+            store = self.statics
+            if d["id"] in store:
+                return
+        elif d.get("storageClass") == "extern":
+            raise NoVerdict("extern declaration in a function body")
+        init = kids(d)[-1] if d.get("init") and kids(d) else None
+        q = strip_const(qt)
+        if q.endswith("]") or (q.startswith(("struct ", "union ")) and "*" not in q):
+            obj = self.make(qt, zero=(store is self.statics))
+            if init is not None:
+                i0 = strip(init)
+                if kind(i0) == "InitListExpr":
+                    self.init_list(obj, i0, fr)
+                elif isinstance(obj, dict):
+                    v = self.rv(init, fr)
+                    if not isinstance(v, dict):
+                        raise NoVerdict("struct initialiser")
+                    obj = self.copy(v)
+                else:
+                    raise NoVerdict("array initialiser of kind %s" % kind(i0))
+            store[d["id"]] = obj
+            return
+        store[d["id"]] = self.rv(init, fr) if init is not None else (0 if store is self.statics else UNDEF)
+
+    def init_list(self, obj, il, fr):
+        elems = kids(il)
+        if isinstance(obj, list):
+            keys = list(range(len(obj)))
+        else:
+            keys = list(obj.keys())
+        if len(elems) > len(keys):
+            raise NoVerdict("initialiser list longer than the object")
+        for i, key in enumerate(keys):
+            e = elems[i] if i < len(elems) else None
+            sub = obj[key]
+            if e is None or kind(e) == "ImplicitValueInitExpr":
+                obj[key] = self.zero(sub)
+            elif isinstance(sub, (list, dict)):
+                e0 = strip(e)
+                if kind(e0) == "InitListExpr":
+                    self.init_list(sub, e0, fr)
+                elif isinstance(sub, dict):
+                    v = self.rv(e, fr)
+                    if not isinstance(v, dict):
+                        raise NoVerdict("struct initialiser")
+                    obj[key] = self.copy(v)
+                else:
+                    raise NoVerdict("array member initialiser")
+            else:
+                obj[key] = self.rv(e, fr)
+
+    def zero(self, v):
+        if isinstance(v, list):
+            return [self.zero(x) for x in v]
+        if isinstance(v, dict):
+            return {k: self.zero(x) for k, x in v.items()}
+        return 0
+
+    # -- values
+    def truth(self, v):
+        if isinstance(v, int):
+            return v != 0
+        if isinstance(v, Ptr) or (isinstance(v, tuple) and v and v[0] == "fn"):
+            return True
+        raise NoVerdict("branch on %s" % ("an uninitialised value" if v is UNDEF else "a non-scalar"))
+
+    def num(self, v, what="arithmetic"):
+        if isinstance(v, bool) or not isinstance(v, int):
+            if v is UNDEF:
+                raise NoVerdict("uninitialised value used in %s" % what)
+            raise NoVerdict("non-integer operand in %s" % what)
+        return v
+
+    def fit(self, v, t, node):
+        """Result of an arithmetic operator of integer type t: unsigned wraps, signed overflow is undefined."""
+        if t is None:
+            raise NoVerdict("arithmetic in a type that is not a known integer type (%s)" % node.get("type", {}).get("qualType"))
+        w = conv(v, t)
+        if w != v and t[2]:
+            raise NoVerdict("signed overflow")
+        return w
+
+    def get(self, lv):
+        obj, key = lv
+        try:
+            if isinstance(obj, list) and not 0 <= key < len(obj):
+                raise NoVerdict("array index %d outside an array of %d elements" % (key, len(obj)))
+            return obj[key]
+        except (KeyError, TypeError):
+            raise NoVerdict("access to an unknown object")
+
+    def put(self, lv, v):
+        obj, key = lv
+        if isinstance(obj, list):
+            if not isinstance(key, int) or not 0 <= key < len(obj):
+                raise NoVerdict("array index %s outside an array of %d elements" % (key, len(obj)))
+        elif not isinstance(obj, dict) or key not in obj:
+            raise NoVerdict("store to an unknown object")
+        old = obj[key]
+        if isinstance(old, (list, dict)) or isinstance(v, (list, dict)):
+            if type(old) is not type(v) or isinstance(v, list):
+                raise NoVerdict("aggregate store of unmatched shape")
+            v = self.copy(v)
+        obj[key] = v
+
+    def lv(self, n, fr):
+        k = kind(n)
+        ks = kids(n)
+        if k in ("ParenExpr", "ConstantExpr"):
+            return self.lv(ks[0], fr)
+        if k == "ImplicitCastExpr" and n.get("castKind") == "NoOp":
+            return self.lv(ks[0], fr)
+        if k == "DeclRefExpr":
+            rd = n.get("referencedDecl", {})
+            if rd.get("kind") in ("VarDecl", "ParmVarDecl"):
+                if rd["id"] in fr:
+                    return (fr, rd["id"])
+                if rd["id"] in self.statics:
+                    return (self.statics, rd["id"])
+                if rd.get("name") in self.globals:
+                    return (self.globals, rd.get("name"))
+                raise NoVerdict("reference to %s, an object outside the evaluated state" % rd.get("name"))
+            raise NoVerdict("reference of kind %s" % rd.get("kind"))
+        if k == "MemberExpr":
+            if n.get("isArrow"):
+                p = self.rv(ks[0], fr)
+                if not isinstance(p, Ptr):
+                    raise NoVerdict("-> through %s" % ("NULL" if p == 0 else "a non-pointer"))
+                base = self.get((p.obj, p.key))
+            else:
+                base = self.get(self.lv(ks[0], fr))
+            if not isinstance(base, dict) or n.get("name") not in base:
+                raise NoVerdict("member %s of a non-struct object" % n.get("name"))
+            return (base, n.get("name"))
+        if k == "ArraySubscriptExpr":
+            a, b = self.rv(ks[0], fr), self.rv(ks[1], fr)
+            if isinstance(b, Ptr):
+                a, b = b, a
+            if not isinstance(a, Ptr) or not isinstance(a.obj, list):
+                raise NoVerdict("subscript of something that is not an array element pointer")
+            return (a.obj, a.key + self.num(b, "an array index"))
+        if k == "UnaryOperator" and n.get("opcode") == "*":
+            p = self.rv(ks[0], fr)
+            if not isinstance(p, Ptr):
+                raise NoVerdict("* of %s" % ("NULL" if p == 0 else "a non-pointer"))
+            return (p.obj, p.key)
+        raise NoVerdict("lvalue of kind %s" % k)
+
+    def rv(self, n, fr):
+        self.tick()
+        k = kind(n)
+        ks = kids(n)
+        if k in ("ParenExpr", "ConstantExpr"):
+            return self.rv(ks[0], fr)
+        if k in ("ImplicitCastExpr", "CStyleCastExpr"):
+            ck = n.get("castKind")
+            if ck == "LValueToRValue":
+                return self.get(self.lv(ks[0], fr))
+            if ck == "ArrayToPointerDecay":
+                if kind(strip(ks[0])) == "StringLiteral":
+                    return ("str",)
+                arr = self.get(self.lv(ks[0], fr))
+                if not isinstance(arr, list):
+                    raise NoVerdict("decay of a non-array")
+                return Ptr(arr, 0)
+            if ck == "FunctionToPointerDecay":
+                return self.rv(ks[0], fr)
+            if ck == "IntegralCast":
+                v = self.rv(ks[0], fr)
+                if v is UNDEF:
+                    return v
+                t = self.itype(n.get("type"))
+                if t is None:
+                    raise NoVerdict("conversion to %s" % n.get("type", {}).get("qualType"))
+                return conv(self.num(v, "a conversion"), t)
+            if ck in ("NoOp", "BitCast"):
+                v = self.rv(ks[0], fr)
+                if ck == "BitCast" and isinstance(v, Ptr):
+                    src = strip_const(strip(ks[0], casts=False).get("type", {}).get("qualType", ""))
+                    dst = strip_const(n.get("type", {}).get("qualType", ""))
+                    if src != dst and "void" not in dst:
+                        raise NoVerdict("pointer cast %s -> %s" % (src, dst))
+                return v
+            if ck == "NullToPointer":
+                return 0
+            if ck in ("PointerToBoolean", "IntegralToBoolean"):
+                return int(self.truth(self.rv(ks[0], fr)))
+            if ck == "ToVoid":
+                self.rv(ks[0], fr)
+                return UNDEF
+            raise NoVerdict("cast of kind %s" % ck)
+        if k in ("IntegerLiteral", "CharacterLiteral"):
+            return int(n["value"])
+        if k == "StringLiteral":
+            return ("str",)
+        if k == "UnaryExprOrTypeTraitExpr":
+            v = self.tu.fold(n)
+            if v is None:
+                raise NoVerdict("sizeof that does not fold")
+            return v
+        if k == "DeclRefExpr":
+            rd = n.get("referencedDecl", {})
+            if rd.get("kind") == "EnumConstantDecl":
+                v = self.tu.fold(n)
+                if v is None:
+                    raise NoVerdict("enumerator that does not fold")
+                return v
+            if rd.get("kind") == "FunctionDecl":
+                return ("fn", rd.get("name"))
+            return self.get(self.lv(n, fr))
+        if k in ("MemberExpr", "ArraySubscriptExpr"):
+            return self.get(self.lv(n, fr))
+        if k == "UnaryOperator":
+            op = n.get("opcode")
+            if op == "&":
+                c = strip(ks[0])
+                if kind(c) == "DeclRefExpr" and c.get("referencedDecl", {}).get("kind") == "FunctionDecl":
+                    return ("fn", c["referencedDecl"].get("name"))
+                obj, key = self.lv(ks[0], fr)
+                return Ptr(obj, key)
+            if op == "*":
+                return self.get(self.lv(n, fr))
+            if op in ("++", "--"):
+                lv = self.lv(ks[0], fr)
+                old = self.get(lv)
+                d = 1 if op == "++" else -1
+                if isinstance(old, Ptr):
+                    if not isinstance(old.obj, list):
+                        raise NoVerdict("arithmetic on a pointer that is not into an array")
+                    new = Ptr(old.obj, old.key + d)
+                else:
+                    new = self.assign_conv(self.num(old) + d, ks[0])
+                self.put(lv, new)
+                return old if n.get("isPostfix") else new
+            v = self.rv(ks[0], fr)
+            if op == "!":
+                return int(not self.truth(v))
+            t = self.itype(n.get("type"))
+            if op == "-":
+                return self.fit(-self.num(v), t, n)
+            if op == "+":
+                return self.num(v)
+            if op == "~":
+                if t is None:
+                    raise NoVerdict("~ in an unknown type")
+                return conv(~self.num(v), t)
+            raise NoVerdict("unary %s" % op)
+        if k == "BinaryOperator":
+            op = n.get("opcode")
+            if op == "=":
+                v = self.rv(ks[1], fr)
+                self.put(self.lv(ks[0], fr), v)
+                return v
+            if op == ",":
+                self.rv(ks[0], fr)
+                return self.rv(ks[1], fr)
+            if op == "&&":
+                return int(self.truth(self.rv(ks[0], fr)) and self.truth(self.rv(ks[1], fr)))
+            if op == "||":
+                return int(self.truth(self.rv(ks[0], fr)) or self.truth(self.rv(ks[1], fr)))
+            a, b = self.rv(ks[0], fr), self.rv(ks[1], fr)
+            if op in ("==", "!="):
+                if isinstance(a, Ptr) or isinstance(b, Ptr) or isinstance(a, tuple) or isinstance(b, tuple):
+                    if isinstance(a, Ptr):
+                        eq = a.same(b)
+                    elif isinstance(b, Ptr):
+                        eq = b.same(a)
+                    else:
+                        eq = a == b
+                    if (a is UNDEF) or (b is UNDEF):
+                        raise NoVerdict("uninitialised value used in a comparison")
+                    return int(eq == (op == "=="))
+                a, b = self.num(a, "a comparison"), self.num(b, "a comparison")
+                return int((a == b) == (op == "=="))
+            if op in ("<", ">", "<=", ">="):
+                if isinstance(a, Ptr) and isinstance(b, Ptr) and a.obj is b.obj and isinstance(a.obj, list):
+                    a, b = a.key, b.key
+                a, b = self.num(a, "a comparison"), self.num(b, "a comparison")
+                return int(a < b if op == "<" else a > b if op == ">" else a <= b if op == "<=" else a >= b)
+            if isinstance(a, Ptr) or isinstance(b, Ptr):
+                if op == "+" and isinstance(b, Ptr):
+                    a, b = b, a
+                if op in ("+", "-") and isinstance(a, Ptr) and not isinstance(b, Ptr):
+                    if not isinstance(a.obj, list):
+                        raise NoVerdict("arithmetic on a pointer that is not into an array")
+                    return Ptr(a.obj, a.key + (self.num(b) if op == "+" else -self.num(b)))
+                if op == "-" and isinstance(a, Ptr) and isinstance(b, Ptr) and a.obj is b.obj and isinstance(a.obj, list):
+                    return a.key - b.key
+                raise NoVerdict("pointer arithmetic %s" % op)
+            return self.arith(op, self.num(a), self.num(b), self.itype(n.get("type")), n)
+        if k == "CompoundAssignOperator":
+            op = n.get("opcode")[:-1]
+            lv = self.lv(ks[0], fr)
+            old = self.get(lv)
+            b = self.rv(ks[1], fr)
+            if isinstance(old, Ptr):
+                if op not in ("+", "-") or not isinstance(old.obj, list):
+                    raise NoVerdict("compound assignment on a pointer")
+                new = Ptr(old.obj, old.key + (self.num(b) if op == "+" else -self.num(b)))
+            else:
+                ct = self.itype(n.get("computeResultType")) or self.itype(n.get("type"))
+                lt = self.itype(n.get("computeLHSType")) or ct
+                if ct is None or lt is None:
+                    raise NoVerdict("compound assignment in an unknown type")
+                new = self.assign_conv(self.arith(op, conv(self.num(old), lt), self.num(b), ct, n), ks[0])
+            self.put(lv, new)
+            return new
+        if k == "ConditionalOperator":
+            return self.rv(ks[1] if self.truth(self.rv(ks[0], fr)) else ks[2], fr)
+        if k == "CallExpr":
+            callee = strip(ks[0])
+            if not (kind(callee) == "DeclRefExpr" and callee.get("referencedDecl", {}).get("kind") == "FunctionDecl"):
+                raise NoVerdict("indirect call")
+            name = callee["referencedDecl"].get("name")
+            args = [self.rv(x, fr) for x in ks[1:]]
+            if name in IO_FUNCS:
+                return 0
+            return self.call(name, args)
+        raise NoVerdict("expression of kind %s" % k)
+
+    def assign_conv(self, v, lhs):
+        t = self.itype(lhs.get("type"))
+        if t is None:
+            raise NoVerdict("store into an object of unknown integer type (%s)" % lhs.get("type", {}).get("qualType"))
+        return conv(v, t)
+
+    def arith(self, op, a, b, t, n):
+        if op == "+":
+            return self.fit(a + b, t, n)
+        if op == "-":
+            return self.fit(a - b, t, n)
+        if op == "*":
+            return self.fit(a * b, t, n)
+        if op in ("/", "%"):
+            if b == 0:
+                raise NoVerdict("division by zero")
+            q = abs(a) // abs(b)
+            if (a < 0) != (b < 0):
+                q = -q
+            return self.fit(q if op == "/" else a - b * q, t, n)
+        if op in ("<<", ">>"):
+            if t is None or not 0 <= b < t[1] or a < 0:
+                raise NoVerdict("shift outside the defined range")
+            return self.fit(a << b, t, n) if op == "<<" else a >> b
+        if op in ("&", "|", "^"):
+            if t is None:
+                raise NoVerdict("bit operation in an unknown type")
+            return conv(a & b if op == "&" else a | b if op == "|" else a ^ b, t)
+        raise NoVerdict("operator %s" % op)
+
+
+# ---------------------------------------------------------------- R5 decided by evaluation of the sort helper
+
+PRIO_SPREAD = (-32768, -129, -128, -1, 0, 1, 127, 128, 255, 256, 32767)
+PRIO_PAIRS = ((0, 1), (-32768, 32767), (-1, 0), (127, 128), (255, 256), (-129, -128), (32766, 32767))
+SORT_WEAK_ORDER_LEN = 4
+
+
+def weak_orderings(n):
+    """All weak orderings of n items as rank vectors (ranks 0..m without gaps): every way n priorities can compare
+    with one another, ties included (1, 1, 3, 13, 75 for n = 0..4)."""
+    out = []
+    for r in itertools.product(range(max(n, 1)), repeat=n):
+        if not r or set(r) == set(range(max(r) + 1)):
+            out.append(tuple(r))
+    return out
+
+
+def witness_perms(n):
+    """A fixed handful of permutations of 0..n-1 (rank of item k) for the fill levels beyond the exhaustive range."""
+    ident = list(range(n))
+    out = [ident, ident[::-1], ident[1:] + ident[:1], ident[-1:] + ident[:-1], ident[0::2] + ident[1::2],
+           ident[1::2] + ident[0::2], [x ^ 1 if (x ^ 1) < n else x for x in ident],
+           ident[n // 2:] + ident[:n // 2], ident[n // 2:][::-1] + ident[:n // 2][::-1]]
+    x = 12345
+    for _ in range(6):
+        p = list(ident)
+        for i in range(n - 1, 0, -1):
+            x = (x * 1103515245 + 12345) % (1 << 31)
+            j = x % (i + 1)
+            p[i], p[j] = p[j], p[i]
+        out.append(p)
+    seen, res = set(), []
+    for p in out:
+        if tuple(p) not in seen:
+            seen.add(tuple(p))
+            res.append(tuple(p))
+    return res
+
+
+def rank_values(r, spread):
+    """Priorities for a rank vector: small consecutive values, or values spread over int16 with its extremes and the
+    8-bit boundaries (same order)."""
+    m = max(r) if r else 0
+    if not spread:
+        return [x + 1 for x in r]
+    last = len(PRIO_SPREAD) - 1
+    return [PRIO_SPREAD[(x * last) // m if m else last // 2] for x in r]
+
+
+def sort_witnesses(n):
+    """Priority assignments for a bucket of n items: (why, [priority of item 0..n-1]).  All 2^n assignments of two
+    priorities (for a sort that is a fixed sequence of compare-exchange steps -- R5's structural record -- these decide
+    every input: 0-1 principle), all weak orderings for n <= SORT_WEAK_ORDER_LEN (every input of a comparison sort,
+    whatever its structure), permutations and tie patterns with the int16 extremes beyond that."""
+    seen, out = set(), []
+
+    def add(why, vals):
+        if tuple(vals) not in seen:
+            seen.add(tuple(vals))
+            out.append((why, list(vals)))
+    for i, bits in enumerate(itertools.product((0, 1), repeat=n)):
+        lo, hi = PRIO_PAIRS[i % len(PRIO_PAIRS)]
+        add("two priorities", [hi if b else lo for b in bits])
+    if n <= SORT_WEAK_ORDER_LEN:
+        for r in weak_orderings(n):
+            add("weak ordering", rank_values(r, False))
+            add("weak ordering", rank_values(r, True))
+    else:
+        for p in witness_perms(n):
+            add("permutation", rank_values(p, False))
+            add("permutation", rank_values(p, True))
+            add("permutation with ties", rank_values([x // 2 for x in p], True))
+            add("permutation with ties", rank_values([x // 3 for x in p], False))
+    return out
+
+
+def sort_fold_run(a, sort, n, prios, tail):
+    """One concrete evaluation of the sort helper on a bucket of n items with the given priorities ->
+    None when the order sequence makes tdma_sched_execute run every item once in ascending priority, else the text of
+    what goes wrong; a position behind the fill level that does not hold its own index is appended to `tail`.
+    NoVerdict when the evaluation cannot be carried out."""
+    name, bi, qi = sort
+    ev = CEval(a.tu)
+    bucket = ev.make("struct tdma_sched_bucket", zero=True)
+    items = bucket.get("item")
+    if not isinstance(items, list) or len(items) != a.NCB or "num_items" not in bucket:
+        raise NoVerdict("bucket layout")
+    order = sorted(set(prios))
+    stale = max(PRIO_LO, (min(prios) if prios else 0) - 1)
+    orig = {}
+    for k, it in enumerate(items):
+        live = k < n
+        rank = order.index(prios[k]) if live else 0
+        other = (len(order) - rank) if live else 0
+        for f in list(it):
+            if f == "cb":
+                it[f] = ("fn", "%s#%d" % ("item" if live else "stale", k))
+            elif f == "prio":
+                it[f] = prios[k] if live else stale
+            elif f in ("p1", "p2", "p3"):
+                it[f] = other
+            elif isinstance(it[f], (list, dict)):
+                raise NoVerdict("aggregate member %s of struct tdma_sched_item" % f)
+        if live:
+            orig[it["cb"]] = dict(it)
+    bucket["num_items"] = n
+    seq = [UNDEF] * a.NCB
+    world = [bucket]
+    f = a.tu.func(name)
+    if len(a.tu.fparams(f)) != 2:
+        raise NoVerdict("%s() takes %d parameters" % (name, len(a.tu.fparams(f))))
+    args = [None, None]
+    args[bi], args[qi] = Ptr(world, 0), Ptr(seq, 0)
+    ev.call(name, args)
+    if bucket["num_items"] != n:
+        return "the sort changes num_items to %s" % (bucket["num_items"],)
+    ran = []
+    for pos in range(n):
+        s = seq[pos]
+        if s is UNDEF:
+            raise NoVerdict("seq[%d] is not written for a bucket of %d items (decided by R9)" % (pos, n))
+        if not isinstance(s, int) or not 0 <= s < a.NCB:
+            return "seq[%d] = %s is no index of item[]" % (pos, s)
+        ran.append((s, items[s]))
+    names = [it["cb"] for (_s, it) in ran]
+    for cb in orig:
+        if names.count(cb) != 1:
+            k = int(cb[1].split("#")[1])
+            return "item[%d] (priority %d) is %s (order sequence %s)" % (
+                k, prios[k], "never executed" if cb not in names else "executed %d times" % names.count(cb), seq[:n])
+    for (s, it) in ran:
+        if it != orig.get(it["cb"]):
+            return "the item in slot %d no longer carries the parameters it was scheduled with" % s
+    got = [it["prio"] for (_s, it) in ran]
+    for x, y in zip(got, got[1:]):
+        if x > y:
+            return "order sequence %s runs the priorities %s: %d before %d" % (seq[:n], got, x, y)
+    for pos in range(n, a.NCB if n else 0):       # (no call-back runs for an empty bucket: nothing is scheduled on the fly)
+        if seq[pos] is UNDEF or seq[pos] != pos:
+            tail.append("seq[%d] %s" % (pos, "is not written" if seq[pos] is UNDEF else "= %s" % (seq[pos],)))
+            break
+    return None
+
+
+def sort_fold(a, sort):
+    """-> (runs, None | counterexample text, None | text for the positions behind the fill level); NoVerdict when some
+    run cannot be evaluated.  The first counterexample found is the one with the fewest items."""
+    runs = 0
+    bad = badtail = None
+    for n in range(a.NCB + 1):
+        for (why, prios) in sort_witnesses(n):
+            runs += 1
+            tail = []
+            text = sort_fold_run(a, sort, n, prios, tail)
+            if text is not None and bad is None:
+                bad = "num_items = %d, priorities of item[0..%d] = %s: %s" % (n, n - 1, prios, text)
+            if tail and badtail is None:
+                badtail = "num_items = %d: %s when the sort returns" % (n, tail[0])
+        if bad is not None:
+            break
+    return runs, bad, badtail
+
+
+def r5_sort(a, sort):
+    """C08.R5 -- decides "items of one frame run in ascending priority order" (with R4: the execute loop runs
+    item[seq[0]], item[seq[1]], ... of the sequence the sort helper produced) by evaluating the sort helper: a concrete
+    interpreter of its clang AST (CEval: exact integer conversions, pointers, arrays, structs, loops, helper calls) runs
+    it for every fill level 0..ARRAY_SIZE(item) on priority witnesses -- all assignments of two priorities, all weak
+    orderings of up to four items, permutations / tie patterns with the int16 extremes for fuller buckets -- and the
+    resulting seq[0..n-1] must select every item of the bucket exactly once, unchanged, in ascending priority.  How the
+    sort is written (which algorithm, pointers to the items or a local copy of the keys, cached minimum, loop bounds,
+    clamps) is irrelevant; a difference is a concrete bucket whose items run in the wrong order.  The for-all statement
+    for code in the recognised selection-sort shape is the structural record (r5_shape); when the helper cannot be
+    evaluated the shape rule decides alone, as before."""
+    R = "C08.R5"
+    if sort is None:
+        raise AnalysisError("tdma_sched_execute(): the priority sort helper could not be identified")
+    name = sort[0]
+    try:
+        try:
+            runs, bad, badtail = sort_fold(a, sort)
+        except (TypeError, KeyError, IndexError, ValueError, AttributeError, RecursionError) as e:
+            raise NoVerdict("the evaluator met a construct it does not model (%s)" % type(e).__name__)
+    except NoVerdict as e:
+        a.sort_fold = "not evaluated: %s" % e
+        r5_shape(a, sort)
+        return
+    a.sort_fold = bad or "ok"
+    if bad is None:
+        a.L.floor(R, "concrete evaluations of the sort helper over priority witnesses", runs, 2 ** (a.NCB + 1) - 1)
+    want = "every item once, unchanged, in ascending priority, in all evaluated buckets"
+    a.ob(R, name, "%s(): for every fill level 0..%d the order sequence runs each item of the bucket exactly once in ascending "
+         "priority (evaluated for all assignments of two priorities, all weak orderings of up to %d items, permutations "
+         "and tie patterns with the int16 extremes)" % (name, a.NCB, SORT_WEAK_ORDER_LEN), want, bad or want, bad is None,
+         a.tu.func(name))
+    if bad is None:
+        want = "seq[m] = m for m = num_items .. %d, for every fill level >= 1" % (a.NCB - 1)
+        a.ob(R, name, "%s(): the positions of the order sequence behind the fill level hold their own index (an item that a "
+             "call-back schedules into the running frame lands in slot num_items and is executed from there)" % name,
+             want, badtail or want, badtail is None, a.tu.func(name))
+    a.L.structural("C08.R5: the sort helper is a selection sort over the identity sequence whose exchange is decided by "
+                   "prio[earlier] > prio[later] on the current sequence (holds for every bucket content)", r5_shape_record, a, sort)
+
+
+def r5_shape_record(a, sort):
+    """The shape rule as a record only (the decision was taken by the fold): whatever it cannot classify is `open`."""
+    try:
+        r5_shape(a, sort)
+    except (TypeError, KeyError, IndexError, ValueError, AttributeError) as e:
+        raise AnalysisError("%s(): not in the selection-sort shape the rule classifies (%s)" % (sort[0], type(e).__name__))
 
 
 # ---------------------------------------------------------------- R7 reset empties the ring
